@@ -184,6 +184,9 @@ def frames(rng, n_cases):
                     if rng.integers(0, 8) == 0:
                         v = np.nan
                     rows.append({K['id']: i_, K['time']: t, K['obs']: o, K['val']: v, K['dose']: np.nan, K['dur']: np.nan})
+            if rng.integers(0, 3) == 0:
+                # one row per visit: a measurement recorded on the same row as a dose (it belongs to the measurement trace *and* to the dose trace)
+                rows.append({K['id']: i_, K['time']: float(rng.integers(0, 40)) * 0.25, K['obs']: obs[int(rng.integers(0, len(obs)))], K['val']: 1.0 + 0.013 * next(tag), K['dose']: float(rng.integers(1, 9)), K['dur']: 0.5})
             for _ in range(int(rng.integers(0, 4))):
                 rows.append({K['id']: i_, K['time']: float(rng.integers(0, 40)) * 0.25, K['obs']: np.nan, K['val']: np.nan, K['dose']: float(rng.integers(1, 9)), K['dur']: (np.nan if rng.integers(0, 3) == 0 else float(rng.integers(1, 4)) * 0.5)})     # bolus doses are recorded without a duration
         order = rng.permutation(len(rows))
